@@ -470,9 +470,28 @@ EDIT_MIX = [
 ]
 
 
-def gen_edit(rng, spec, cfg, i, mix=None):
+def neighbourhood(spec, names):
+    """The named objects plus the objects they reference and the objects that reference them (two rings)."""
+    out = set(n for n in names if n in spec["objs"])
+    for _ in range(2):
+        ring = set()
+        for n in out:
+            ring.update(d for d in S.deps_of(spec["objs"][n]) if d in spec["objs"])
+            ring.update(u for u, _a in S.users_of(spec, n))
+        out |= ring
+    return out
+
+
+def gen_edit(rng, spec, cfg, i, mix=None, focus=None):
+    """`focus`: names touched by the last operations.  A third of the time the next operation is drawn in their
+    neighbourhood, so that histories contain *dependent* sequences (an edit upstream or downstream of what has just
+    been re-linked or recomputed) far more often than uniform drawing would give."""
     mix = mix or EDIT_MIX
     closure_names = set(S.closure(spec))
+    if focus and rng.random() < 0.35:
+        near = neighbourhood(spec, focus) & closure_names
+        if near:
+            closure_names = near
     total = sum(w for _, w in mix)
     for _ in range(12):
         x = rng.uniform(0, total)
